@@ -275,10 +275,15 @@ impl Prop for Captured {
                 (Tier::Thorough, _, Algorithm::Patience) => 5,
                 (Tier::Thorough, _, _) => 5,
             };
-            for n in 0..=max {
-                for m in 0..=max {
+            // thorough: additionally longer-but-lopsided plain inputs (n,m <= 6, n+m <= 10)
+            let outer = if tier == Tier::Thorough { max.max(6) } else { max };
+            for n in 0..=outer {
+                for m in 0..=outer {
+                    if (n > max || m > max) && n + m > 10 {
+                        continue;
+                    }
                     for layout in small_layouts() {
-                        let big = n + m > 8;
+                        let big = n + m > 8 || n > max || m > max;
                         if big && !layout.is_plain() {
                             continue;
                         }
